@@ -143,7 +143,8 @@ def run_tlc(work, module, cfgfile, sink=None, workers=1, timeout=1800, heap="4g"
     kept as the log.  Returns a TLCResult."""
     res = TLCResult()
     meta = tempfile.mkdtemp(prefix="md.", dir=work.dir)
-    cmd = ["timeout", str(timeout), "java", "-Xmx" + heap, "-Xss64m", "-XX:+UseParallelGC"]
+    cmd = ["timeout", str(timeout), "java", "-Xmx" + heap, "-Xss64m", "-XX:+UseParallelGC",
+           "-Djava.io.tmpdir=" + meta]     # (TLC's own scratch directory goes with the run's metadir, not to /tmp)
     cmd += list(java_props)
     cmd += ["-cp", TLA_CP, "tlc2.TLC", "-workers", str(workers), "-metadir", meta, "-config", cfgfile]
     if simulate:
